@@ -108,6 +108,7 @@ fn main() {
             let mut careful = false;
             let mut limit = None;
             let mut per_stream = None;
+            let mut skip_streams: Vec<String> = Vec::new();
             let mut input_file = None;
             let mut i = 3;
             while i < args.len() {
@@ -127,6 +128,7 @@ fn main() {
                     "--start" => start = val().parse().unwrap_or(0),
                     "--limit" => limit = val().parse().ok(),
                     "--per-stream" => per_stream = val().parse().ok(),
+                    "--skip-streams" => skip_streams = val().split(',').filter(|x| !x.is_empty()).map(|x| x.to_string()).collect(),
                     "--careful" => careful = true,
                     "--input-file" => input_file = Some(val()),
                     _ => {
@@ -155,6 +157,7 @@ fn main() {
                             careful,
                             limit,
                             per_stream,
+                            skip_streams,
                         };
                         match worker::run_property(prop.as_ref(), &ra) {
                             Ok(()) => 0,
